@@ -22,29 +22,37 @@ ZERO_OPS = ('cup', 'cap', 'in', 'notin', 'infty')
 
 CMD_NAMES = ('x', 'y', 'foo', 'bar', 'emph', 'textit', 'ref', 'cite', 'alpha', 'vspace*', 'x*', 'Q',
              # names that merely start like a special name must stay ordinary commands
-             'itemsep', 'endnote', 'begingroup', 'lefteqn', 'biggl', 'inf', 'defn', 'labels', 'sectionmark')
+             'itemsep', 'endnote', 'begingroup', 'lefteqn', 'biggl', 'inf', 'defn', 'labels', 'sectionmark',
+             # names that are also used as environment names
+             'center', 'small')
 MATH_CMD_NAMES = ('frac', 'sqrt', 'sum', 'alpha', 'beta', 'mathbf', 'x', 'hat', 'lim', 'leftarrow', 'rightarrow',
                   'biggl', 'lefteqn', 'inf', 'Biggr')
-ENV_NAMES = ('e', 'f', 'center', 'quote', 'tabular', 'thm', 'figure*', 'doc')
+ENV_NAMES = ('e', 'f', 'center', 'quote', 'tabular', 'thm', 'figure*', 'doc', 'document', 'small')
 INNER_MATH_ENVS = ('split', 'cases', 'array', 'aligned')
 
-WORDS = ('a', 'b', 'x', 'foo', 'bar', 'Hello', 'world', '42', '3.14', 'é', 'naïve', 'ß', 'Ω', '日本', '👩')
+WORDS = ('a', 'b', 'x', 'foo', 'bar', 'Hello', 'world', '42', '3.14', 'é', 'naïve', 'ß', 'Ω', '日本', '👩',
+         'cafe\u0301', 'i\u0308')          # also canonically decomposed sequences
 PUNCT = ('.', ',', ';', ':', '!', '?', "'", '"', '-', '+', '=', '/', '@', '|', '<', '>', '(', ')', '&', '#', '^',
          '_', '~', '*')
-BLANKS = (' ', '  ', '\t', '\n', ' \n', '\n ', '\n\n', ' \n \n ', '\n\t', '   ')
+BLANKS = (' ', '  ', '\t', '\n', ' \n', '\n ', '\n\n', ' \n \n ', '\n\t', '   ', ' ', '\n',
+          # white space that is not one of TeX's spacer / end-of-line characters
+          '\xa0', '\x0c', '\u2009', '\u2028', '\x85', '\r\n', ' \r\n')
 ESCAPES = ('\\$', '\\%', '\\&', '\\#', '\\_', '\\{', '\\}', '\\~', '\\^', '\\ ', '\\,', '\\;', '\\!', '\\"',
            "\\'", '\\.', '\\|', '\\-', '\\/', '\\@', '\\\n', '\\\\', '\\\\', '\\<', '\\é')
 MATH_ATOMS = ('a', 'b', 'x', 'n', '1', '2', '+', '-', '=', '<', '>', '/', '|', '.', ',', ':', ';', '!', "'",
               '^', '_', '&', ' ', '  ', '\n', '(', ')', '[', ']', '(', ']', '[', ')', '\\\\', '\\$', '\\{', '\\}',
               '\\,', '\\;', '\\!', '\\|', '\\ ', '*')
 COMMENT_ATOMS = ('a', ' ', 'x y', '{', '}', '[', ']', '$', '$$', '\\', '\\\\', '\\begin{e}', '\\end{e}',
-                 '\\end{itemize}', '\\item', '%', '\\(', '\\)', '\\[', '\\]', '\\x{', '\\end{verbatim}', '#', '~')
+                 '\\end{itemize}', '\\item', '%', '\\(', '\\)', '\\[', '\\]', '\\x{', '\\end{verbatim}', '#', '~', '\x0c', '\u2028',
+                 '\\lstnewenvironment{e}{}{}')
 HOSTILE_ATOMS = ('a', ' ', '\n', 'x y', '{', '}', '[', ']', '$', '$$', '\\x', '\\\\ ', '\\begin{e}', '\\end{e}',
                  '\\end{itemize}', '\\item', '\\(', '\\)', '\\[', '\\]', '\\x{', '\\end{verb', '\\end{', '\\end',
-                 '#', '~', '&', '%c\n', '\\textbf{', '\\begin{equation}', '\\left(', 'é', '\t', '\\%')
+                 '#', '~', '&', '%c\n', '\\textbf{', '\\begin{equation}', '\\left(', 'é', '\t', '\\%',
+                 '\\end {verbatim}', '\\end\n{lstlisting}', '\r\n')
 BENIGN_ATOMS = ('a', ' ', '\n', 'x y', 'foo', '.', ',', '42', ';', 'é')
 SEPARATORS = ('.', ';', ',', '!', ' x', '.', '?')
 
+ASCII_LETTERS = 'abcdefghijklmnopqrstuvwxyzABCDEFGHIJKLMNOPQRSTUVWXYZ'   # the only command-name letters
 ATTACH_RE = re.compile(r'[ \t]*\n?[ \t]*[\[{]')
 ATTACH_BRACKET_RE = re.compile(r'[ \t]*\n?[ \t]*\[')
 ATTACH_SEPS = ('', '', ' ', '  ', '\t', '\n', ' \n', '\n ', ' \n\t ')
@@ -762,7 +770,7 @@ def normalise(nodes, gen, ctx_bracket=False, lead=None, counters=None, strict=Fa
     i = 0
     if lead == 'item-noargs' and nodes:
         fc = _first_chars(nodes, 0)
-        if fc[:1] and (fc[0].isalpha() or fc[0] == '*'):
+        if fc[:1] and (fc[0] in ASCII_LETTERS or fc[0] == '*'):
             nodes.insert(0, Node('text', text=' '))
             bump('repair:letter-after-item')
     if lead in ('cmdlike', 'item-noargs') and nodes:
@@ -776,11 +784,11 @@ def normalise(nodes, gen, ctx_bracket=False, lead=None, counters=None, strict=Fa
         if k == 'cmd':
             punct = any(n.name.startswith(p) and n.name[len(p):] in DELIMS for p in SIZE_PREFIX)
             zero = n.sig and n.name in ZERO_OPS + ('noindent',)
-            if not n.args and not punct and nxt[:1] and (nxt[0].isalpha() or nxt[0] == '*'):
+            if not n.args and not punct and nxt[:1] and (nxt[0] in ASCII_LETTERS or nxt[0] == '*'):
                 nodes.insert(i + 1, sep(ctx_bracket))
                 bump('repair:letter-after-command')
                 continue
-            if strict and not punct and nxt[:1] and (nxt[0].isalpha() or nxt[0] in '*[{' or ATTACH_RE.match(nxt)):
+            if strict and not punct and nxt[:1] and (nxt[0] in ASCII_LETTERS or nxt[0] in '*[{' or ATTACH_RE.match(nxt)):
                 nodes.insert(i + 1, sep(ctx_bracket))
                 bump('repair:strict-separator-after-command')
                 continue
